@@ -94,8 +94,11 @@ class Rig:
 
     def __init__(self, rng, kind="sage", d=3, names_kind="str", dynamic=True, alpha=Q(1, 3), n_inner=1,
                  storage_kind="geom", storage_size=3, imputer_kind="joint", model_kind="scalar", loss_kind="arbitrary",
-                 lbb=False, interval_length=2, storage_length=3, default_ctor=False, extra_features=0, positional=False):
+                 lbb=False, interval_length=2, storage_length=3, default_ctor=False, extra_features=0, positional=False,
+                 static_alpha=False, prefill=0):
         self.rng = rng
+        self.static_alpha = static_alpha
+        self.prefill = prefill
         self.kind = kind
         self.d = d
         self.names = list(NAME_SETS[names_kind][:d])
@@ -266,7 +269,8 @@ class Rig:
                         kw = dict(storage=self.storage, imputer=imputer, n_inner_samples=self.n_inner,
                                   dynamic_setting=self.dynamic)
                         if self.dynamic or self.alpha is not None:
-                            kw["smoothing_alpha"] = self.alpha if self.dynamic else None
+                            # in the static setting the configured alpha is not used by the trackers, but get_confidence_bound reads it
+                            kw["smoothing_alpha"] = self.alpha if (self.dynamic or getattr(self, "static_alpha", False)) else None
                         if self.kind == "pfi" and not self.dynamic:
                             kw["smoothing_alpha"] = self.alpha if self.alpha is not None else Q(1, 1000)
                         if self.kind == "sage":
@@ -281,6 +285,15 @@ class Rig:
                     self.ex = IntervalSage(**common, n_inner_samples=self.n_inner, interval_length=self.interval_length,
                                            storage_length=self.storage_length, storage=st, imputer=imputer)
         self.storage = self.ex._storage
+        # a storage that already holds observations when the explainer is first called (shared with another explainer, or filled by hand):
+        # the explainer's FIRST call still only seeds, whatever the storage contains
+        if self.prefill and self.kind in ("pfi", "sage"):
+            with warnings.catch_warnings():
+                warnings.simplefilter("ignore")
+                d0 = hrng.Scripted(pyrandom.Random(self.rng.randrange(10 ** 9)), real_fn=lambda r: r.random())
+                with d0.installed():
+                    for _ in range(self.prefill):
+                        self.storage.update(self.gen_x(), self.gen_y())
         self._wrap_imputer()
         self._wrap_storage()
 
